@@ -122,8 +122,8 @@ pub fn run(ctx: &Ctx) {
          distinct (rule, EDB).",
     );
     ctx.assume("reading of `_` in an aggregate body: an anonymous variable that is part of the valuation (as the engine itself does for single-atom bodies)");
-    ctx.run_part_with("no_wildcards", ctx.cases(1500, 40_000), || strategy(false), |c, o| check(ctx, c, o), Some(&crate::common::gen::shrink_case));
-    ctx.run_part_with("with_wildcards", ctx.cases(800, 20_000), || strategy(true), |c, o| check(ctx, c, o), Some(&crate::common::gen::shrink_case));
+    ctx.run_part_with("no_wildcards", ctx.cases(4000, 60_000), || strategy(false), |c, o| check(ctx, c, o), Some(&crate::common::gen::shrink_case));
+    ctx.run_part_with("with_wildcards", ctx.cases(2400, 36_000), || strategy(true), |c, o| check(ctx, c, o), Some(&crate::common::gen::shrink_case));
 }
 
 pub fn replay(ctx: &Ctx, part: &str, case: &J) -> Option<Result<CheckResult, String>> {
